@@ -55,6 +55,9 @@ def sched_parts(pid: str, tier: str):
         mk("whole-run-N3", Cfg(N=3, resources="tma", activation=True, kwargs=False, monitors=mons), base_req + ["w_deactivated"], 600)
         mk("whole-run-N3-kwargs-async", Cfg(N=3, resources="ta", flavours="a", kwargs=True, sym_seq=False, monitors=mons), base_req, 600)
         mk("whole-run-N4-threads", Cfg(N=4, resources="t", sym_seq=False, monitors=mons), base_req, 600, 8)
+        # DAG.setup(<selection>) runs the same scheduler on a sub-graph of setup nodes
+        mk("setup-run-N3-selection", Cfg(N=3, resources="tm", selection=True, activation=True, sym_seq=False, setup_call=True, monitors=mons), ["w_returned", "w_setup_call", "w_parallel"], 600)
+        mk("setup-run-N4-reconverging", Cfg(N=4, resources="t", selection=True, sym_seq=False, setup_call=True, fixed_shapes=SHAPES_N4, monitors=mons), ["w_returned", "w_setup_call", "w_parallel"], 600)
         from harness.dataflow import DCfg, run_dataflow
 
         # the values clause on the front end: what a node receives through keyword / indexed / nested-DAG plumbing
@@ -71,6 +74,7 @@ def sched_parts(pid: str, tier: str):
         mk("whole-run-N3-selection", Cfg(N=3, resources="tm", selection=True, activation=True, sym_seq=False, monitors=mons), base_req + ["w_deactivated"], 600)
         mk("whole-run-N3-all-resources", Cfg(N=3, resources="tma", monitors=mons), base_req, 600)
         mk("whole-run-N3-nested-activation", Cfg(N=3, resources="tm", nested=True, activation=True, sym_seq=False, monitors=mons), base_req + ["w_deactivated", "w_inner_flag"], 600)
+        mk("setup-run-N3-selection", Cfg(N=3, resources="tm", selection=True, activation=True, sym_seq=False, setup_call=True, monitors=mons), ["w_returned", "w_setup_call", "w_parallel"], 600)
         from harness.graph import GCfg, run_c13
         from harness.history import HCfg, run_c11
 
@@ -178,6 +182,8 @@ LARGER = {
 
 # larger fixed shapes (indices of the dependencies of node i): reconverging triangle next to two independent nodes, diamond
 # with a tail, fan-out, fan-in, two chains that join
+# diamond; triangle with an independent node; root with a reconverging pair below one branch
+SHAPES_N4 = (((), (0,), (0,), (1, 2)), ((), (0,), (0, 1), ()), ((), (0,), (1,), (0, 2)))
 SHAPES_N5 = (((), (), (), (2,), (2, 3)), ((), (0,), (0,), (1, 2), (3,)), ((), (0,), (0,), (0,), (0,)), ((), (), (), (), (0, 1, 2, 3)),
              ((), (0,), (), (2,), (1, 3)))
 # two diamonds in a row; a wide diamond; three roots feeding two joins
